@@ -112,7 +112,7 @@ func (fr *Frame) callInner(in ssa.Instruction, c *ssa.CallCommon, st *State, pc 
 	nres := sig.Results().Len()
 	// 1. contract (function, closure, interface method or extern)
 	if calleeName != "" {
-		if fc := vc.specs.contractFor(calleeName); fc != nil {
+		if fc := vc.specs.contractFor(calleeName); fc != nil && !(fc.InlineCalls && callee != nil && fr.canInline(callee)) {
 			return fr.modularCall(fc, callee, c, args, argTypes, sig, st, pc, site)
 		}
 	}
@@ -268,7 +268,7 @@ func (fr *Frame) canInline(f *ssa.Function) bool {
 	if len(f.Blocks) == 0 || fr.depth >= 4 {
 		return false
 	}
-	if fc := fr.vc.specs.contractFor(funcName(f)); fc != nil {
+	if fc := fr.vc.specs.contractFor(funcName(f)); fc != nil && !fc.InlineCalls {
 		return false
 	}
 	if f.Pkg == nil || !strings.HasPrefix(f.Pkg.Pkg.Path(), modulePrefix) {
@@ -276,7 +276,7 @@ func (fr *Frame) canInline(f *ssa.Function) bool {
 			return false
 		}
 	}
-	if len(f.Blocks) > 60 {
+	if len(f.Blocks) > 300 {
 		return false
 	}
 	for p := fr; p != nil; p = p.parent {
